@@ -22,10 +22,15 @@ func attDomain() []byte { d := make([]byte, 32); d[0] = 1; return d }
 
 // oneInstanceAttestations: two conflicting attestations (same target with different data, or one
 // surrounding the other) delivered to one instance in any order with repeats: never both signed.
-func oneInstanceAttestations(k int) {
+func oneInstanceAttestations(k int, distributed bool) {
 	ctx := context.Background()
 	log := &stubs.Log{}
 	in := hc.Start(ctx, vsym.TempDir("A"), log, nil)
+	if distributed {
+		// the account is this instance's share of a distributed key: it has a share key (under which
+		// the earlier state below is recorded) and a different composite key
+		in.Wallet.MakeDistributed(0, hc.MkKey(0xd1))
+	}
 	// arbitrary earlier state of the key on this instance
 	if vsym.Choose("pre", 2) == 1 {
 		S, T := vsym.Int64("S"), vsym.Int64("T")
@@ -41,8 +46,21 @@ func oneInstanceAttestations(k int) {
 	signed := []bool{false, false}
 	for step := 0; step < k; step++ {
 		d := vsym.Choose(fmt.Sprintf("duty_%d", step), 2)
-		res, sig := in.Signer.SignBeaconAttestation(ctx, hc.Creds(), "W/a", nil, &rules.SignBeaconAttestationData{Domain: attDomain(), BeaconBlockRoot: roots[d],
-			Source: &rules.Checkpoint{Epoch: s[d], Root: hc.Root}, Target: &rules.Checkpoint{Epoch: t[d], Root: hc.Root}})
+		duty := &rules.SignBeaconAttestationData{Domain: attDomain(), BeaconBlockRoot: roots[d],
+			Source: &rules.Checkpoint{Epoch: s[d], Root: hc.Root}, Target: &rules.Checkpoint{Epoch: t[d], Root: hc.Root}}
+		var res core.Result
+		var sig []byte
+		if distributed && vsym.Choose(fmt.Sprintf("endpoint_%d", step), 2) == 1 {
+			// the duty arrives in a batch together with another validator's attestation
+			other := &rules.SignBeaconAttestationData{Domain: attDomain(), BeaconBlockRoot: hc.Root,
+				Source: &rules.Checkpoint{Epoch: uint64(10 * step), Root: hc.Root}, Target: &rules.Checkpoint{Epoch: uint64(10*step + 1), Root: hc.Root}}
+			rs, ss := in.Signer.SignBeaconAttestations(ctx, hc.Creds(), []string{"W/a", "W/b"}, [][]byte{nil, nil}, []*rules.SignBeaconAttestationData{duty, other})
+			if len(rs) == 2 && len(ss) == 2 {
+				res, sig = rs[0], ss[0]
+			}
+		} else {
+			res, sig = in.Signer.SignBeaconAttestation(ctx, hc.Creds(), "W/a", nil, duty)
+		}
 		if res == core.ResultSucceeded && sig != nil {
 			signed[d] = true
 			vsym.Reach("a-duty-was-signed")
@@ -51,9 +69,14 @@ func oneInstanceAttestations(k int) {
 	vsym.Assert("Q1-at-most-one-of-two-conflicting-attestations-signed-per-instance", !(signed[0] && signed[1]))
 }
 
-func OneInstanceAttestations2() { oneInstanceAttestations(2) }
-func OneInstanceAttestations3() { oneInstanceAttestations(3) }
-func OneInstanceAttestations4() { oneInstanceAttestations(4) }
+func OneInstanceAttestations2() { oneInstanceAttestations(2, false) }
+func OneInstanceAttestations3() { oneInstanceAttestations(3, false) }
+func OneInstanceAttestations4() { oneInstanceAttestations(4, false) }
+
+// OneInstanceShareAccount2: the same for an account that is a share of a distributed key, with every
+// duty arriving through the single or through the batch endpoint.
+func OneInstanceShareAccount2() { oneInstanceAttestations(2, true) }
+func OneInstanceShareAccount3() { oneInstanceAttestations(3, true) }
 
 // oneInstanceProposals: two different blocks at one slot.
 func oneInstanceProposals(k int) {
